@@ -283,8 +283,16 @@ type router struct {
 	from *dkgInst
 }
 
+// ctxDeadlineMs: when > 0 every handler-level call carries a request deadline that far in the future (as a call that
+// arrived over gRPC from a caller with a timeout does); set by the "ctxdl" op.
+var ctxDeadlineMs int
+
 func callerCtx(name string) context.Context {
-	return context.WithValue(context.Background(), &interceptors.ClientName{}, name)
+	ctx := context.WithValue(context.Background(), &interceptors.ClientName{}, name)
+	if ctxDeadlineMs > 0 {
+		ctx, _ = context.WithTimeout(ctx, time.Duration(ctxDeadlineMs)*time.Millisecond) //nolint:govet
+	}
+	return ctx
 }
 
 func wire[T proto.Message](in T, out T) T {
@@ -803,6 +811,7 @@ func dkgEngine(workdir string) {
 		res := ""
 		switch f[0] {
 		case "reset":
+			ctxDeadlineMs = 0
 			if c != nil {
 				c.close()
 				os.RemoveAll(c.dir)
@@ -951,6 +960,33 @@ func dkgEngine(workdir string) {
 			} else {
 				res = fmt.Sprintf("shape:%d:%d", len(rs), len(sigs))
 			}
+		case "iattsu":
+			// iattsu <inst> <accountX> <attX> <account> <att>: a batch of two whose FIRST entry addresses accountX (typically one
+			// that does not exist) with attX; result "<state of the first>/<state[:signature] of the second>"
+			in := c.insts[u64(f[1])]
+			rs, sigs := in.signer.SignBeaconAttestations(context.Background(), &checker.Credentials{Client: "client1", RequestID: "r"},
+				[]string{unhexStr(f[2]), unhexStr(f[4])}, [][]byte{nil, nil},
+				[]*rules.SignBeaconAttestationData{parseAtt(strings.Split(f[3], ",")), parseAtt(strings.Split(f[5], ","))})
+			if len(rs) == 2 && len(sigs) == 2 {
+				res = coreStr(rs[0]) + "/" + posStr(rs[1], sigs[1])
+			} else if len(rs) == 2 && len(sigs) == 0 { // a batch refused before the rules returns no signature list at all
+				res = coreStr(rs[0]) + "/" + coreStr(rs[1])
+			} else {
+				res = fmt.Sprintf("shape:%d:%d", len(rs), len(sigs))
+			}
+		case "sharepubs":
+			// sharepubs <account>: the public key of each instance's share ("id:pub id:pub …")
+			var parts []string
+			for _, id := range c.ids {
+				_, a, err := c.insts[id].fetcher.FetchAccount(context.Background(), unhexStr(f[1]))
+				if err == nil {
+					parts = append(parts, fmt.Sprintf("%d:%x", id, a.PublicKey().Marshal()))
+				}
+			}
+			res = strings.Join(parts, " ")
+			if res == "" {
+				res = "-"
+			}
 		case "iprop":
 			in := c.insts[u64(f[1])]
 			r, sig := in.signer.SignBeaconProposal(context.Background(), &checker.Credentials{Client: "client1", RequestID: "r"},
@@ -968,6 +1004,9 @@ func dkgEngine(workdir string) {
 		case "sleep":
 			ms, _ := strconv.Atoi(f[1])
 			time.Sleep(time.Duration(ms) * time.Millisecond)
+			res = "ok"
+		case "ctxdl":
+			ctxDeadlineMs, _ = strconv.Atoi(f[1])
 			res = "ok"
 		// handler-level messages with an arbitrary authenticated caller name:
 		//   h<msg> <inst> <caller hexstr> <account hexstr> [t parts]
